@@ -211,6 +211,14 @@ func runC07(h *H) {
 					if s := sessions[o.Src]; s != nil {
 						srcT = s.st
 					}
+					// the UID written with the update names the message the flags belong to
+					// (oracle: it must be the message the client has at that number)
+					if o.N >= 1 && int(o.N) <= len(L) {
+						o.UID = uint32(L[o.N-1] + 1)
+					} else if o.UID < 1000 {
+						o.UID += 1000
+					}
+					ops[i].UID = o.UID
 					mt.QueueMessageFlags(o.N, imap.UID(o.UID), []imap.Flag{imap.FlagSeen}, srcT)
 				case "poll":
 					s := sessions[o.Sid]
@@ -243,6 +251,10 @@ func runC07(h *H) {
 							} else {
 								s.view = append(s.view[:u.A-1:u.A-1], s.view[u.A:]...)
 								nontrivial = true
+							}
+						case 4:
+							if u.B >= 1 && u.B < 1000 && (u.A == 0 || int(u.A) > len(s.view) || s.view[u.A-1] != int(u.B)-1) {
+								h.Fail("flags-for-wrong-message", fmt.Sprintf("%q: the flags belong to message id %d, but the client's view at that point is %v (number %d is another message)", u.Desc, u.B-1, s.view, u.A), desc)
 							}
 						case 2:
 							if int(u.A) < len(s.view) {
@@ -361,6 +373,15 @@ func runC07(h *H) {
 	runHistory(0, []trOp{N(1), Q(2), X(1), X(1), Q(1), P(1, true)}, "corpus")
 	runHistory(2, []trOp{N(1), X(3), X(0), Q(1)}, "corpus")
 	// exhaustive short histories over a small alphabet, one session pre-created
+	// flag changes around an expunge of the same number: the two changes concern different
+	// messages and neither may be moved across the expunge
+	F := func(n uint32, src int) trOp { return trOp{K: "fflags", N: n, UID: 1, Src: src} }
+	for _, x := range []uint32{1, 2, 3, 4, 5} {
+		for _, src := range []int{0, 1, 2} {
+			runHistory(5, []trOp{N(1), N(2), F(3, src), X(x), F(3, src), P(1, true), P(2, false), P(2, true)}, "corpus-flags-around-expunge")
+			runHistory(5, []trOp{N(1), F(3, src), F(3, src), X(x), F(2, src), F(3, src), P(1, false), P(1, true)}, "corpus-flags-around-expunge")
+		}
+	}
 	alpha := []trOp{Q(3), Q(4), Q(5), X(1), X(2), X(3), P(1, true), P(1, false), {K: "fflags", N: 1, UID: 1, Src: 1}, N(2), P(2, true), {K: "close", Sid: 2}}
 	depth := h.Pick(3, 4)
 	var rec func(prefix []trOp)
@@ -417,7 +438,16 @@ func runC07(h *H) {
 				if h.Rng.Intn(2) == 0 {
 					ops = append(ops, trOp{K: "mflags"})
 				} else {
-					ops = append(ops, trOp{K: "fflags", N: uint32(1 + h.Rng.Intn(n+1)), UID: uint32(1 + h.Rng.Intn(9)), Src: h.Rng.Intn(nextSid)})
+					f := trOp{K: "fflags", N: uint32(1 + h.Rng.Intn(n+1)), UID: uint32(1 + h.Rng.Intn(9)), Src: h.Rng.Intn(nextSid)}
+					ops = append(ops, f)
+					if int(f.N) <= n && n > 1 && h.Rng.Intn(3) == 0 {
+						// the same number again after it has been expunged (now another message)
+						ops = append(ops, X(f.N))
+						n--
+						if int(f.N) <= n {
+							ops = append(ops, f)
+						}
+					}
 				}
 			default:
 				if nextSid == 1 {
